@@ -284,6 +284,9 @@ GRAPHS: List[Tuple[str, int, List[Tuple[int, int]]]] = [
     ("parallel edges+isolated", 3, [(0, 1), (0, 1)]),
     # non-bipartite and dense: a spanning star has two adjacent leaves at the same depth (rank differences along tree edges are not +-1)
     ("K4", 4, [(0, 1), (0, 2), (0, 3), (1, 2), (1, 3), (2, 3)]),
+    # edges entered with the larger endpoint first (a guard `if i < j` copied onto the edge list drops them), one of them a bridge
+    ("path with a descending edge", 3, [(0, 1), (2, 1)]),
+    ("descending triangle", 3, [(1, 0), (2, 1), (2, 0)]),
 ]
 
 
@@ -299,18 +302,48 @@ class Instance:
         cw = self.w.cw
         real_int, real_bool = cw.method(self.s, "int_array"), cw.method(self.s, "bool_array")
 
+        nesting = [0]
+
         def int_array(shape: Any, lo: int, hi: int) -> Obj:
-            a = real_int(shape, lo, hi)
+            nesting[0] += 1
+            try:
+                a = real_int(shape, lo, hi)
+            finally:
+                nesting[0] -= 1
             self.arrays.append({"kind": "i", "lo": lo, "hi": hi, "ids": [v.attrs["id"] for v in a.attrs["data"]], "user": False})
             return a
 
         def bool_array(shape: Any) -> Obj:
-            a = real_bool(shape)
+            nesting[0] += 1
+            try:
+                a = real_bool(shape)
+            finally:
+                nesting[0] -= 1
             self.arrays.append({"kind": "b", "ids": [v.attrs["id"] for v in a.attrs["data"]], "user": False})
             return a
 
         self.s.attrs["int_array"] = int_array
         self.s.attrs["bool_array"] = bool_array
+        # single auxiliary variables (solver.bool_var() / int_var(lo, hi)) are logged as arrays of one
+        try:
+            real_bv, real_iv = cw.method(self.s, "bool_var"), cw.method(self.s, "int_var")
+
+            def bool_var() -> Obj:
+                v = real_bv()
+                if not nesting[0]:
+                    self.arrays.append({"kind": "b", "ids": [v.attrs["id"]], "user": False})
+                return v
+
+            def int_var(lo: int, hi: int) -> Obj:
+                v = real_iv(lo, hi)
+                if not nesting[0]:
+                    self.arrays.append({"kind": "i", "lo": lo, "hi": hi, "ids": [v.attrs["id"]], "user": False})
+                return v
+
+            self.s.attrs["bool_var"] = bool_var
+            self.s.attrs["int_var"] = int_var
+        except Undecided:
+            pass
 
     def user_bools(self, n: int, role: str) -> Obj:
         a = self.s.attrs["bool_array"](n)
